@@ -28,6 +28,14 @@ package native
 //@   ensures result >= 0 ==> !isSpace((*s)[result])
 //@   ensures result < 0 ==> (0 <= *p && *p <= len(*s) + 4 && -10 <= result)
 
+//@ func SkipOneFast assumed "native skip_one_fast: start/end lie inside the input; on error *p is at most 4 bytes past the end"
+//@   requires 0 <= *p && *p <= len(*s)
+//@   modifies *p
+//@   ensures result >= 0 ==> (old(*p) <= result && result < *p && *p <= len(*s))
+//@   ensures result >= 0 ==> !isSpace((*s)[result])
+//@   ensures result >= 0 ==> (forall k int :: old(*p) <= k && k < result ==> isSpace((*s)[k]))
+//@   ensures result < 0 ==> (0 <= *p && *p <= len(*s) + 4 && -10 <= result)
+
 // ---- dispatch wiring (C13): each slot of the function-pointer table is filled
 // with the same-named routine of ONE instruction-set package; both variants fill
 // the same set of slots; init selects by CPU feature.
